@@ -142,7 +142,7 @@ class LeakyRelu(_Act):
     def configs(self, tier):
         out = []
         for s in (ACT_SH_Q if tier == "quick" else ACT_SH_T):
-            for slope in ([0.01, 0.5] if tier == "quick" else [0.01, 0.5, 0.0, 0.2]):
+            for slope in ([0.01, 0.5, -0.5] if tier == "quick" else [0.01, 0.5, 0.0, 0.2, -0.5, -0.01, 1.0, 2.0]):
                 out.append({"a": L(s), "via": "F", "slope": slope})
         out.append({"a": [3], "via": "M", "slope": 0.1})
         out.append({"a": [3], "via": "F", "slope": None})
